@@ -12,6 +12,7 @@ V: Trace_Codec validates all recorded decoder / encoder / reuse events at the
 import os
 
 import vlib
+from checks import ages_common as ag
 
 VAC = ["NA_t1req", "NA_t2req", "NA_t3req", "NA_t5req", "NA_inner", "NA_challenge", "NA_token2",
        "NA_batchreq", "NA_batchresp", "NA_batch2", "NA_resp2", "NA_t5two"]
@@ -60,7 +61,9 @@ def run(ctx):
         k = c["op"] + "/" + c["m"]
         ops[k] = ops.get(k, 0) + 1
     distinct = len({vlib.json.dumps(c, sort_keys=True) for c in cases})
+    an, acases = ag.run(ctx, ['codec-t1', 'codec-t5', 'codecgap-t1', 'codecgap-t5'])   # Ages.tla: every schedule of phases on one long-lived object, each phase scaled to n operations
     return ctx.finish({
+        **ag.coverage(an, acases),
         "traces_validated_against_impl": n,
         "evaluations": len(cases),
         "distinct_nontrivial": distinct,
@@ -80,4 +83,6 @@ def run(ctx):
 
 
 def replay(ctx, path):
+    if vlib.json.load(open(path)).get("family") == "ages":
+        return ag.replay(ctx, path)
     return ctx.replay_case(path, "wire", "Trace_Codec", cfg="Trace_Codec.cfg")
